@@ -26,7 +26,15 @@ def _objective_entry(task, x):
         hook = sim.obs.get("on_obj_call")
         if hook is not None:
             hook(sim, task, desc, x)        # membership check, counting, fault injection (may raise)
-    val = objectives.evaluate(desc, x)
+    xe = x
+    ob = desc["objective"]
+    if isinstance(ob, dict) and ob.get("via_decode"):
+        # the user's objective decodes its argument through the library, as the repository's TSP example does
+        v = desc["vars"][0]
+        decoded = task.transform_solution(x)[v["name"]]
+        index = {lab: i for i, lab in enumerate(v["labels"])}
+        xe = [[index.get(lab, -1) for lab in decoded]]
+    val = objectives.evaluate(desc, xe)
     if sim is not None and not sim.aborting:
         fp = sim.fault_plan
         if fp is not None and getattr(fp, "scribble", False):
@@ -96,7 +104,7 @@ def build_variables(vars_desc):
         elif t == "binary":
             out.append(pv.BinaryVariable(name=v["name"], n_vars=v["n"]))
         elif t == "perm":
-            out.append(pv.PermutationVariable(name=v["name"], items=list(v["items"])))
+            out.append(pv.PermutationVariable(name=v["name"], items=list(v.get("labels") or v["items"])))
         else:
             raise ValueError(t)
     return out
